@@ -35,6 +35,8 @@ ASSUME = ['numpy, h5py trusted; the HDF5 file is written with taurex.output.hdf5
           'small-scope hypothesis: n <= 7 rows']
 
 SPACINGS = ['uniform', 'log', 'irregular', 'longwave']
+# 'integers': every column holds whole numbers and the array source receives an integer-typed array (odd widths)
+INT_SPACING = 'integers'
 WIDTHS = ['contig', 'gappy', 'overlap']
 SOURCES = ['array', 'text', 'taurex', 'hdf5fn']
 
@@ -48,6 +50,8 @@ def wavelengths(letter, n):
         return np.array([0.8, 1.1, 1.15, 2.4, 5.0, 5.5, 9.0])[:n]
     if letter == 'longwave':
         return np.array([12.0, 30.0, 110.0, 250.0, 600.0, 900.0, 1500.0])[:n]
+    if letter == INT_SPACING:
+        return np.array([2.0, 5.0, 9.0, 14.0, 20.0, 27.0, 35.0])[:n]
     raise ValueError(letter)
 
 
@@ -59,6 +63,11 @@ def make_rows(case):
     val = 0.01 * (1.0 + 0.1 * np.arange(n)) * g.uniform(0.9, 1.1, n)
     err = 1e-4 * (1.0 + np.arange(n)) * g.uniform(0.9, 1.1, n)
     colsl = [wl, val, err]
+    if case['spacing'] == INT_SPACING:
+        colsl = [wl, np.array([30.0, 41.0, 37.0, 52.0, 48.0, 60.0, 55.0])[:n], np.array([2.0, 3.0, 5.0, 4.0, 6.0, 7.0, 9.0])[:n]]
+        if cols == 4:
+            colsl.append(np.array([1.0, 3.0, 3.0, 5.0, 5.0, 7.0, 7.0])[:n])
+        return np.vstack(colsl).T.copy()
     if cols == 4:
         mid = ref.midpoint_widths(wl)
         if case['width'] == 'contig':
@@ -81,6 +90,8 @@ def load(source, rows, tag):
     if source == 'array':
         from taurex.data.spectrum import ArraySpectrum
         buf = rows.copy()
+        if np.all(buf == np.round(buf)):
+            buf = buf.astype(np.int64)
         o = ArraySpectrum(buf)
         o._verif_input_buffer = buf       # kept so that the caller's buffer can be reused after loading
         return o, rows
@@ -166,7 +177,7 @@ def case_fn(case):
             # the caller reuses its buffer for the next spectrum (rows reversed, values refilled): the loaded
             # observation must not change with it
             buf[:] = buf[::-1].copy()
-            buf[:, 1] *= 1.7
+            buf[:, 1] = (buf[:, 1] * 1.7).astype(buf.dtype)
             snap2 = snapshot(o)
             same = all(np.array_equal(snap[a], snap2[a]) for a in ATTRS)
             r.check(same, 'independent-of-input-buffer', 'obs/aliases-input-buffer/' + cls, rows=keep)
@@ -217,6 +228,26 @@ def case_fn(case):
         r.eq(np.asarray(g_val, float)[live], bref[live], 'binned-model', 'binner/aligned-model/' + cls, rows=keep)
         r.check(np.array_equal(np.asarray(out2[1], float), np.asarray(g_val, float)), 'binned-model',
                 'binner/bin_model/' + cls)
+        # a model grid that stops short of the observation at one end (the outermost bin lies wholly outside it):
+        # every bin the model does reach is still aligned with its own observed value
+        if p == list(range(n)) or p == list(range(n))[::-1] or p == perms[len(perms) // 2]:
+            for side in ('low', 'high'):
+                if side == 'low':
+                    sel = wn_f > (R['wn'][0] + 0.5 * R['wnwidth'][0]) * 1.0001
+                else:
+                    sel = wn_f < (R['wn'][-1] - 0.5 * R['wnwidth'][-1]) * 0.9999
+                if sel.sum() < 3:
+                    continue
+                wn_p, s_p = wn_f[sel], s_f[sel]
+                bp, _, sw_p, _ = ref.overlap_bin(wn_p, ref.midpoint_widths(wn_p), s_p, R['wn'], R['wnwidth'])
+                try:
+                    gp = np.asarray(b.bindown(wn_p.copy(), s_p.copy())[1], float)
+                except Exception as ex:
+                    r.check(False, 'no-exception', 'binner/raised-short-model/%s/%s' % (type(ex).__name__, cls), exc=repr(ex))
+                    continue
+                lv = sw_p > 1e-9 * R['wnwidth']
+                if gp.shape == bp.shape and lv.any():
+                    r.eq(gp[lv], bp[lv], 'binned-model', 'binner/aligned-model-short-%s/%s' % (side, cls), rows=keep)
         # element-by-element alignment: bin i of the binned model is the bin of spectrum[i]
         r.check(np.asarray(g_val).shape == snap['spectrum'].shape, 'binned-model', 'binner/shape/' + cls)
         if kind == 'shuffled' or (kind == 'sorted-asc-wl'):
@@ -236,6 +267,10 @@ def explore(ctx):
                         continue
                     for wd in (WIDTHS if cols == 4 else ['none']):
                         cases.append({'spacing': sp, 'n': n, 'cols': cols, 'width': wd, 'source': src})
+    for n in ns:
+        for cols in (3, 4):
+            cases.append({'spacing': INT_SPACING, 'n': n, 'cols': cols, 'width': 'odd' if cols == 4 else 'none',
+                          'source': 'array'})
     if thorough:
         # 5040 permutations of 7 rows, in-memory source only
         for sp in SPACINGS:
